@@ -87,6 +87,9 @@ func (g G) planC09() *Plan {
 		devPct: 60, tamperPct: 55, timePct: 5, faultPcts: []int{0, 10, 30}, bodyFaultPct: 12, writeFaultPct: 5, rogueSPPct: 8, hostVariety: true, oddHostPct: 10,
 		minSteps: 3, maxSteps: 30, maxPre: 2, hardPre: true, preBindings: []string{BindPost, BindRedirect, BindArtifact, "", "urn:x"}, autoFinishPct: 50}
 	p := g.planMix("C09", o)
+	// the response signing certificate is outside its validity (the 2001-only fixture), or its validity ends during the run
+	p.World.IDP.ExpiredRespCert = g.chance("expiredRespCert", 15)
+	g.aimAtCertExpiry(p, 5)
 	// stored SP metadata corrupted before registration
 	for i := range p.World.SPs {
 		if g.chance(fmt.Sprintf("corrupt%d", i), 35) {
